@@ -479,18 +479,23 @@ func zlist(xs []string) string {
 // digests shared with Model.v (dmix, dlist, run_digest)
 var dMask = new(big.Int).Sub(pow2(124), big.NewInt(1))
 
-func dmix(acc, v *big.Int) *big.Int {
+func dstep(acc, limb *big.Int, k int64) *big.Int {
 	a := new(big.Int).Mul(acc, big.NewInt(33))
-	if v.Sign() >= 0 && v.Cmp(dMask) <= 0 {
-		a.Add(a, v)
-	} else {
-		a.Add(a, new(big.Int).And(v, dMask)) // two's complement semantics, as Z.land
-		hi := new(big.Int).Rsh(v, 124)       // floor, as Z.shiftr
-		hi.And(hi, dMask)
-		a.Add(a, hi.Mul(hi, big.NewInt(7)))
-	}
-	a.Add(a, big.NewInt(1))
+	a.Add(a, new(big.Int).And(limb, dMask)) // two's complement semantics, as Z.land
+	a.Add(a, big.NewInt(k))
 	return a.And(a, dMask)
+}
+func dmix(acc, v *big.Int) *big.Int {
+	if v.Sign() >= 0 && v.Cmp(dMask) <= 0 {
+		a := new(big.Int).Mul(acc, big.NewInt(33))
+		a.Add(a, v)
+		a.Add(a, big.NewInt(1))
+		return a.And(a, dMask)
+	}
+	v1 := new(big.Int).Rsh(v, 124) // floor, as Z.shiftr
+	v2 := new(big.Int).Rsh(v1, 124)
+	v3 := new(big.Int).Rsh(v2, 124)
+	return dstep(dstep(dstep(dstep(acc, v, 1), v1, 2), v2, 3), v3, 4)
 }
 func dbytes(acc *big.Int, b []byte) *big.Int {
 	acc = dmix(acc, big.NewInt(int64(len(b))))
